@@ -30,8 +30,10 @@ EXPLANATION = ("theorems: the generated nsteps/index computation enumerates exac
                "Four accepted body forms are classified unsoundly (C37_*_refuted, known findings, repairs proposed for three). "
                "partial: OpenMP's memory model (flushes, privatisation, data races) and libgomp are outside the model; they are "
                "exercised by the differential run only. Floating accumulators are outside the theorem (no associativity): the "
-               "harness uses exactly representable values. That every uniformly used name passes the well-formedness check is "
-               "not a theorem: it is evaluated by the extracted checker for every generated body.")
+               "harness uses exactly representable values. C37_uniform_names_classified / C37_declared_region_wf: every name "
+               "used in one role at any nesting depth gets the declared clause, so bodies well-formed for declared roles are "
+               "well-formed for the computed classification; that such bodies raise no front-end error is evaluated by the "
+               "extracted region_errors per generated body, not proved.")
 TRUSTED = ["gcc -fopenmp / libgomp (clause semantics: reduction initialiser/combiner, lastprivate = sequentially last iteration, "
            "firstprivate) as transcribed in M_PrangeShare.v par_exec",
            "atomicity of fetch_parallel_exception under the GIL (modelled as one step)",
